@@ -2605,6 +2605,53 @@ example : ∃ (W : Nat → Option Tree) (t : Tree) (r : Roster) (n : Net) (evs :
   exact ⟨W, t, ro, n1, evs, hW, ht, hw.1, hn1, hp, hev, hq,
     (c06_two_servers_quiescent_request_answered W hW t ro ht hw.1 .B n1 hn1 hp evs hev).2 hq⟩
 
+/-! #### a description parked under the nil roster id is never dropped
+
+`handleSendTreeMarshal` parks a description of a requested tree under whatever roster id it names — also the nil
+id.  `handleSendRoster` refuses rosters with the nil id, so no message can release that entry; the local actions do
+not touch the table.  (For the other ids a roster message with that id clears the entry: `c06_roster_clears_parked`.)
+The table is not the tree store — nothing of it is ever handed to a protocol — so the statement of C06 is not
+violated; the entry is memory that is never given back, one slice element per such message received while the
+tree is requested. -/
+
+/-- every parked description can be released by some message of a peer -/
+def C06_parked_releasable : Prop :=
+  ∀ (o : Ovl) (rid : Nat) (sl : List TreeMarshal), lookup o.pending rid = some sl → ∃ m, lookup (handle o m).1.pending rid = none
+
+/-- **parked under the nil roster id = parked for ever**: whatever messages arrive and whatever the server does -/
+theorem c06_nil_roster_description_parked_for_ever (evs : List Ev) (o : Ovl) (sl : List TreeMarshal) (tm : TreeMarshal)
+    (hl : lookup o.pending 0 = some sl) (hm : tm ∈ sl) :
+    ∃ sl', lookup (runEv o evs).pending 0 = some sl' ∧ tm ∈ sl' := by
+  unfold runEv
+  induction evs generalizing o sl with
+  | nil => exact ⟨sl, hl, hm⟩
+  | cons e rest ih =>
+    simp only [List.foldl_cons]
+    cases e with
+    | loc l =>
+      simp only [stepEv]
+      exact ih (localStep o l) sl (by rw [local_pending]; exact hl) hm
+    | peer m =>
+      simp only [stepEv]
+      by_cases hn : ∃ ro, m = .sendRoster ro ∧ ro.id = 0
+      · obtain ⟨ro, rfl, h0⟩ := hn
+        have : (handle o (.sendRoster ro)).1 = o := by simp [handle, h0]
+        rw [this]; exact ih o sl hl hm
+      · obtain ⟨sl', h1, h2⟩ := handle_keeps_parked o m 0 sl tm hl hm
+          (fun ro e h0 => hn ⟨ro, e, h0⟩)
+        exact ih _ sl' h1 h2
+
+/-- it is reachable (a peer sends it while the tree is requested), so `C06_parked_releasable` is false -/
+theorem c06_parked_releasable_fails : ¬ C06_parked_releasable := by
+  intro h
+  let tm : TreeMarshal := { treeId := 1, rosterId := 0, children := .nil }
+  let o := runEv {} [.loc (.request 1), .peer (.treeMarshal tm)]
+  have hl : lookup o.pending 0 = some [tm] := by decide
+  obtain ⟨m, hm⟩ := h o 0 [tm] hl
+  obtain ⟨sl', h1, _⟩ := c06_nil_roster_description_parked_for_ever [.peer m] o [tm] tm hl (by simp)
+  simp only [runEv, List.foldl_cons, List.foldl_nil, stepEv] at h1
+  rw [hm] at h1; exact absurd h1 (by simp)
+
 /-- **a deprecated description nobody is waiting for is refused at the entrance**: when its tree id is not
 requested-and-empty (never asked for, or the tree is present) the message changes nothing — nothing is
 stored, nothing is parked for a later roster message, no roster is asked for.  (Parked, it would be
@@ -2629,6 +2676,179 @@ example : ∃ (t : Tree) (n : Net), (n.ovl .A).get t.id = some t ∧ (n.ovl .B).
   refine ⟨t, n, by decide, by decide, ?_, ?_, by decide⟩
   · intro s; cases s <;> decide
   · intro s; cases s <;> decide
+
+
+/-! ### any number of servers, any schedule -/
+
+/-- a state of the world with any number of servers: every server's state is a state of the world, every message
+in flight — whoever sent it — was produced by a server of the world -/
+def NNetOK (W : Nat → Option Tree) (n : NNet) : Prop :=
+  (∀ s, OvlOK W (n.ovl s)) ∧ (∀ s, ∀ m ∈ n.inbox s, MsgOK W m.2)
+
+/-- servers register trees of the world -/
+def NEvOK (W : Nat → Option Tree) : NNetEv → Prop
+  | .loc _ (.register t) => W t.id = some t
+  | .loc _ (.instance t) => W t.id = some t
+  | _ => True
+
+private theorem updN_cases {α : Type} (f : Nat → α) (s s' : Nat) (v : α) : updN f s v s' = v ∨ updN f s v s' = f s' := by
+  unfold updN; split
+  · exact Or.inl rfl
+  · exact Or.inr rfl
+
+private theorem nhandleAt_ok {W : Nat → Option Tree} (hW : WorldOK W) (n : NNet) (s p : Nat) (m : Msg)
+    (rest : List (Nat × Msg)) (hn : NNetOK W n) (hm : MsgOK W m) (hrest : ∀ x ∈ rest, MsgOK W x.2) :
+    NNetOK W (n.handleAt s p m rest) := by
+  obtain ⟨h1, h2⟩ := handle_ok hW (n.ovl s) m (hn.1 s) hm
+  refine ⟨?_, ?_⟩
+  · intro s'
+    simp only [NNet.handleAt]
+    rcases updN_cases n.ovl s s' (handle (n.ovl s) m).1 with e | e
+    · rw [e]; exact h1
+    · rw [e]; exact hn.1 s'
+  · intro s' x hx
+    simp only [NNet.handleAt] at hx
+    have hin : ∀ s'' y, y ∈ updN n.inbox s rest s'' → MsgOK W y.2 := by
+      intro s'' y hy
+      rcases updN_cases n.inbox s s'' rest with e | e
+      · rw [e] at hy; exact hrest y hy
+      · rw [e] at hy; exact hn.2 s'' y hy
+    rcases updN_cases (updN n.inbox s rest) p s'
+        (updN n.inbox s rest p ++ (handle (n.ovl s) m).2.map fun o => (s, o.toMsg)) with e | e
+    · rw [e] at hx
+      rcases List.mem_append.mp hx with h | h
+      · exact hin _ x h
+      · obtain ⟨out, hout, rfl⟩ := List.mem_map.mp h
+        exact h2 out hout
+    · rw [e] at hx; exact hin _ x hx
+
+theorem nnetStep_ok {W : Nat → Option Tree} (hW : WorldOK W) (n : NNet) (e : NNetEv) (hn : NNetOK W n) (he : NEvOK W e) :
+    NNetOK W (nnetStep n e) := by
+  cases e with
+  | loc s l =>
+    refine ⟨?_, hn.2⟩
+    intro s'
+    simp only [nnetStep]
+    rcases updN_cases n.ovl s s' (localStep (n.ovl s) l) with e | e
+    · rw [e]
+      apply local_ok _ _ (hn.1 s)
+      cases l <;> first | exact he | trivial
+    · rw [e]; exact hn.1 s'
+  | ask s p id v =>
+    refine ⟨?_, ?_⟩
+    · intro s'
+      simp only [nnetStep]
+      rcases updN_cases n.ovl s s' (localStep (n.ovl s) (.reqSend id)) with e | e
+      · rw [e]; exact local_ok _ _ (hn.1 s) trivial
+      · rw [e]; exact hn.1 s'
+    · intro s' x hx
+      simp only [nnetStep] at hx
+      split at hx
+      · rcases updN_cases n.inbox p s' (n.inbox p ++ [(s, Msg.requestTree id v)]) with e | e
+        · rw [e] at hx
+          rcases List.mem_append.mp hx with h | h
+          · exact hn.2 _ x h
+          · simp only [List.mem_singleton] at h; subst h; trivial
+        · rw [e] at hx; exact hn.2 s' x hx
+      · exact hn.2 s' x hx
+  | deliver s i =>
+    simp only [nnetStep]
+    cases hg : (n.inbox s)[i]? with
+    | none => exact hn
+    | some m =>
+      exact nhandleAt_ok hW n s m.1 m.2 _ hn (hn.2 s m (List.mem_of_getElem? hg))
+        (fun x hx => hn.2 s x (List.mem_of_mem_eraseIdx hx))
+  | redeliver s i =>
+    simp only [nnetStep]
+    cases hg : (n.inbox s)[i]? with
+    | none => exact hn
+    | some m =>
+      exact nhandleAt_ok hW n s m.1 m.2 _ hn (hn.2 s m (List.mem_of_getElem? hg)) (fun x hx => hn.2 s x hx)
+  | drop s i =>
+    refine ⟨hn.1, ?_⟩
+    intro s' x hx
+    simp only [nnetStep] at hx
+    rcases updN_cases n.inbox s s' ((n.inbox s).eraseIdx i) with e | e
+    · rw [e] at hx; exact hn.2 s x (List.mem_of_mem_eraseIdx hx)
+    · rw [e] at hx; exact hn.2 s' x hx
+
+/-- **any number of servers, any schedule: a learnt tree is the world's tree.**  For every world, every state of
+it with any number of servers and every finite run — registrations of trees of the world at any server, requests
+in the current or the deprecated form put to any server, every message handled in any order, any number of times or
+never, its replies travelling back to whoever sent it, withdrawals, expiry — every tree found in any server's store
+under an id is the world's tree of that id, equal to it in every field; and every message still in flight is one a
+server of the world produces. -/
+theorem c06_n_servers_learn_only_the_worlds_trees (W : Nat → Option Tree) (hW : WorldOK W)
+    (n : NNet) (hn : NNetOK W n) (evs : List NNetEv) (hev : ∀ e ∈ evs, NEvOK W e) :
+    NNetOK W (nnetRun n evs) ∧ ∀ s id t, ((nnetRun n evs).ovl s).get id = some t → W id = some t := by
+  have hrun : NNetOK W (nnetRun n evs) := by
+    unfold nnetRun
+    induction evs generalizing n with
+    | nil => exact hn
+    | cons e rest ih =>
+      simp only [List.foldl_cons]
+      exact ih _ (nnetStep_ok hW n e hn (hev e (by simp))) (fun x hx => hev x (List.mem_cons_of_mem _ hx))
+  refine ⟨hrun, fun s id t h => (hrun.1 s).1 id t ?_⟩
+  unfold Ovl.get at h
+  cases hl : lookup ((nnetRun n evs).ovl s).store id with
+  | none => simp [hl] at h
+  | some v =>
+    simp only [hl, Option.join_some] at h
+    subst h
+    clear hrun
+    generalize ((nnetRun n evs).ovl s).store = l at hl
+    induction l with
+    | nil => simp [lookup] at hl
+    | cons p rest ih =>
+      obtain ⟨k, v'⟩ := p
+      simp only [lookup] at hl
+      split at hl
+      · next e => subst e; simp at hl; subst hl; exact List.mem_cons_self ..
+      · exact List.mem_cons_of_mem _ (ih hl)
+
+/-- the empty network of any size is a state of every world -/
+theorem nnetOK_empty (W : Nat → Option Tree) : NNetOK W { ovl := fun _ => {}, inbox := fun _ => [] } :=
+  ⟨fun _ => ⟨by intro id t h; simp at h, by intro rid sl h; simp at h⟩, by intro s m h; simp at h⟩
+
+/-- non-vacuity with three servers: 0 registers the tree; 1 asks 0 (current form); 2 asks 1 in the deprecated form
+while 1 does not hold the tree yet (no answer); 0's answer reaches 1; 2's request is handled by 1 once more (a
+duplicate) and now answered with the bare description; 2 parks it, asks 1 for the roster, gets it — all three
+hold exactly the world's tree -/
+example : ∃ (W : Nat → Option Tree) (t : Tree) (evs : List NNetEv), WorldOK W ∧ W 1 = some t ∧
+    (∀ e ∈ evs, NEvOK W e) ∧
+    ((nnetRun { ovl := fun _ => {}, inbox := fun _ => [] } evs).ovl 1).get 1 = some t ∧
+    ((nnetRun { ovl := fun _ => {}, inbox := fun _ => [] } evs).ovl 2).get 1 = some t ∧
+    (∀ s, s < 3 → (nnetRun { ovl := fun _ => {}, inbox := fun _ => [] } evs).inbox s = []) := by
+  let ro : Roster := { id := 9, list := [⟨3, 4, false⟩, ⟨5, 6, false⟩] }
+  let t := newTree 1 ro (.node 3 3 4 0 0 (.node 5 5 6 1 0 .nil .nil) .nil)
+  let W : Nat → Option Tree := fun i => if i = 1 then some t else none
+  refine ⟨W, t, [.loc 0 (.register t), .ask 1 0 1 1, .ask 2 1 1 0, .deliver 0 0, .deliver 1 1, .redeliver 1 0,
+      .drop 1 0, .deliver 2 0, .deliver 1 0, .deliver 2 0], ?_, by simp [W], ?_, by decide, by decide, ?_⟩
+  · refine ⟨?_, ?_⟩
+    · intro id t' h
+      by_cases e : id = 1
+      · subst e
+        have : t' = t := by simpa [W] using h.symm
+        subst this
+        exact ⟨rfl, by decide, ro, newTree_wf 1 ro _ (by decide) (by simp [NodesOK, ro]), by unfold Roster.Distinct; decide, by decide⟩
+      · simp [W, e] at h
+    · intro i j t1 t2 r1 r2 h1 h2 h3 h4 _
+      have e1 : t1 = t := by
+        by_cases e : i = 1
+        · subst e; simpa [W] using h1.symm
+        · simp [W, e] at h1
+      have e2 : t2 = t := by
+        by_cases e : j = 1
+        · subst e; simpa [W] using h2.symm
+        · simp [W, e] at h2
+      subst e1; subst e2
+      rw [h3] at h4; exact Option.some.inj h4
+  · intro e he
+    simp only [List.mem_cons, List.mem_nil_iff, or_false] at he
+    rcases he with rfl | rfl | rfl | rfl | rfl | rfl | rfl | rfl | rfl | rfl <;> first | trivial | (simp [NEvOK, W])
+  · intro s hs
+    have : s = 0 ∨ s = 1 ∨ s = 2 := by omega
+    rcases this with rfl | rfl | rfl <;> decide
 
 /-! ### the code regions the model stands for
 Regenerated from /repo's source on every run (`harness/cmd/astfacts` → `OnetVerif/Shapes.lean`): the
